@@ -134,6 +134,10 @@ func (E *Engine) VerifyFunc(name string) (rep FuncReport) {
 	}
 	top.Lets = ev.Lets
 	for _, rq := range c.Requires {
+		if rq.CallSiteOnly {
+			top.Demands = append(top.Demands, ev.EvalBool(rq.Expr, rq.Src))
+			continue
+		}
 		m.AssumeT(ev.EvalBool(rq.Expr, rq.Src))
 	}
 	m.Entry.Heap = copyHeap(m.Heap)
@@ -212,7 +216,12 @@ func (E *Engine) applyContract(m *Machine, f *Frame, x *ssa.Call, fn *ssa.Functi
 		if len(props) == 0 && m.Top != nil && m.Top.C != nil {
 			props = allProps(m.Top.C)
 		}
-		E.addObl(m, &Obligation{Name: fmt.Sprintf("%s:pre@%s:%s", m.Top.Name, site, rq.Label), Func: m.Top.Name, Kind: "pre", Props: props, Reading: rq.Reading, Goal: g, Src: rq.Src})
+		o := &Obligation{Name: fmt.Sprintf("%s:pre@%s:%s", m.Top.Name, site, rq.Label), Func: m.Top.Name, Kind: "pre", Props: props, Reading: rq.Reading, Goal: g, Src: rq.Src}
+		E.addObl(m, o)
+		if rq.CallSiteOnly && m.Top != nil && E.probing == 0 {
+			// a panic-freedom demand of the callee may rely on the caller's own demands
+			o.Hyps = append(o.Hyps, m.Top.Demands...)
+		}
 		m.AssumeT(g)
 	}
 	old := &Snapshot{G: copyG(m.G), Heap: copyHeap(m.Heap)}
